@@ -397,6 +397,29 @@ def vary(rng, c, p_gen=0.3, p_other=0.08):
     return gen.mk_atom(c.base, t)
 
 
+def clash_one(rng, c):
+    """c with exactly ONE leaf triple replaced by another concrete triple of the same base (an incompatibility at one position of a possibly
+    deep sub-category: whichever leaf it is, the patterns must not match)"""
+    leaves = []
+
+    def walk(x, path):
+        if is_fun(x):
+            walk(x.left, path + (0,)); walk(x.right, path + (1,))
+        else:
+            leaves.append(path)
+    walk(c, ())
+    target = rng.choice(leaves)
+
+    def rebuild(x, path):
+        if is_fun(x):
+            return Functor(rebuild(x.left, path + (0,)), x.slash, rebuild(x.right, path + (1,)))
+        if path != target:
+            return x
+        others = [f for f in BASE_FEATS.get(x.base, []) if f != triple(x.feature)]
+        return gen.mk_atom(x.base, rng.choice(others)) if others else x
+    return rebuild(c, ())
+
+
 def wrap(core, outs):
     for s, d in outs:
         core = Functor(core, s, d)
@@ -411,8 +434,9 @@ def instantiate(rng, sym, modifier=False, bar=0.06):
     def sl(default):
         return '|' if rng.random() < bar else default
     anysl = lambda: rng.choice(['/', '\\', '\\', '|'] if rng.random() < 0.15 else ['/', '\\'])   # noqa
-    b = rand_sub(rng, rng.choice([0, 1, 1, 2]))
-    b2 = vary(rng, b) if rng.random() < 0.8 else b
+    b = rand_sub(rng, rng.choice([0, 1, 1, 2, 3]))
+    u_ = rng.random()
+    b2 = clash_one(rng, b) if u_ < 0.2 else (vary(rng, b) if u_ < 0.85 else b)
     a = (b if sym[0] == '>' else b2) if modifier else rand_sub(rng, rng.choice([0, 1, 1, 2]))
     c = rand_sub(rng, rng.choice([0, 0, 1]))
     if sym == '>':
